@@ -244,6 +244,9 @@ def run_apidc(spec, rec: Recorder):
         pick = lambda: rng.choice(edge) if rng.random() < 0.4 else rng.randrange(32)  # noqa: E731
         pp = (pick(), pick())
         p = (pick(), pick())
+        if i % 3 == 0:  # adjacent positions around an L1 roll-over and around equality
+            k = (i // 3) % 31
+            pp, p = [((k, 31), (k + 1, 0)), ((k + 1, 0), (k, 31)), ((k, 31), (k, 31)), ((k, 30), (k, 31)), ((k + 1, 1), (k + 1, 0)), ((k, 0), (k, 1))][(i // 93) % 6]
         cfg = DCConfig({rkid: rk}, rkid, now=(l0, 31, 31), security="scripted")
         cfg.l2_key_absent_at_31 = bool(i % 2)
         core = DCCore(cfg)
